@@ -22,7 +22,7 @@ pub fn extra_bases() -> Vec<(String, String)> {
     vec![
         (
             "base_spread".into(),
-            "env {\n    owner: Bytes,\n}\nparty P;\npolicy Pol = 0xABCDEF1234ABCDEF1234ABCDEF1234ABCDEF1234ABCDEF1234ABCDEF1234;\nasset Tok = 0xABCDEF1234ABCDEF1234ABCDEF1234ABCDEF1234ABCDEF1234ABCDEF1234.\"TOK\";\ntype R {\n    a: Int,\n    b: Bytes,\n}\ntype V {\n    C0,\n    C1 {\n        x: Int,\n        y: R,\n    },\n}\ntx t(q: Int, r: UtxoRef) {\n    locals {\n        l1: q + 1,\n        l2: l1 + 2,\n    }\n    input src {\n        from: P,\n        datum_is: R,\n        min_amount: Ada(q) + Tok(1),\n        redeemer: V::C1 {\n            x: l2,\n            y: R {\n                a: 1,\n                ...src\n            },\n        },\n    }\n    reference refd {\n        ref: r,\n    }\n    output out {\n        to: P,\n        amount: src - fees,\n        datum: R {\n            b: owner,\n            ...src\n        },\n    }\n    mint {\n        amount: Tok(q),\n        redeemer: V::C0 {},\n    }\n    signers {\n        P,\n    }\n    validity {\n        since_slot: tip_slot(),\n        until_slot: time_to_slot(q),\n    }\n    metadata {\n        674: \"memo\",\n    }\n}\n".into(),
+            "env {\n    owner: Bytes,\n}\nparty P;\npolicy Pol = 0xABCDEF1234ABCDEF1234ABCDEF1234ABCDEF1234ABCDEF1234ABCDEF1234;\nasset Tok = 0xABCDEF1234ABCDEF1234ABCDEF1234ABCDEF1234ABCDEF1234ABCDEF1234.\"TOK\";\ntype R {\n    a: Int,\n    b: Bytes,\n}\ntype V {\n    C0,\n    C1 {\n        x: Int,\n        y: R,\n    },\n}\ntx t(q: Int, r: UtxoRef) {\n    locals {\n        l1: q + 1,\n        l2: l1 + 2,\n    }\n    input src {\n        from: P,\n        datum_is: R,\n        min_amount: Ada(q) + Tok(1),\n        redeemer: V::C1 {\n            x: l2,\n            y: R {\n                a: 1,\n                b: owner,\n            },\n        },\n    }\n    reference refd {\n        ref: r,\n    }\n    output out {\n        to: P,\n        amount: src - fees,\n        datum: R {\n            b: owner,\n            ...src\n        },\n    }\n    mint {\n        amount: Tok(q),\n        redeemer: V::C0 {},\n    }\n    signers {\n        P,\n    }\n    validity {\n        since_slot: tip_slot(),\n        until_slot: time_to_slot(q),\n    }\n    metadata {\n        674: \"memo\",\n    }\n}\n".into(),
         ),
         (
             "base_policy".into(),
